@@ -638,6 +638,39 @@ def enc_single_cycle_path(case):
         check("auxiliary-route-taken-only-when-not-configured", Not(st["eff"]))
 
 
+@harness("C20", cases=[dict(arg=a) for a in ("none", "given")])
+def passthrough_grid(case):
+    """grid form of active_vertices_connected (a BoolArray2D of any shape, graph omitted): acyclic and use_graph_primitive
+    reach the worker unchanged, for 1xN and Nx1 boards like for any other"""
+    if CTX.mode != "sym":
+        return
+    arg = _flag(case.arg, "arg_ugp")
+    acyclic = sbool("acyclic")
+    h, w = sint("h"), sint("w")
+    requires(And(h >= 0, w >= 0))
+    seen = []
+    solver = construct(CLS(SOL, "Solver"))
+    arr = OBJ("cspuz/array.py", "BoolArray2D", shape=(h, w), data=slist("act", "opaque", h * w))
+    flat = OBJ("cspuz/array.py", "BoolArray1D", shape=(h * w,), data=slist("flat", "opaque", h * w))
+    use_contract("cspuz/array.py::Array2D.flatten", lambda it, a, k: flat)
+    use_contract("cspuz/array.py::BoolArray2D.flatten", lambda it, a, k: flat)
+    use_contract(GR + "::_grid_graph", lambda it, a, k: Opaque("grid-graph"))
+
+    def worker(it, a, k):
+        vals = dict(zip(["solver", "is_active", "graph", "acyclic", "use_graph_primitive"], a))
+        vals.update(k)
+        seen.append(vals)
+        return None
+    use_contract(GR + "::_active_vertices_connected", worker)
+    o = call(REAL(GR, "active_vertices_connected"), solver, arr, acyclic=acyclic, use_graph_primitive=arg)
+    check("no-exception", not o.raised)
+    check("worker-called-once", len(seen) == 1)
+    if len(seen) == 1:
+        v = seen[0]
+        check("acyclic-unchanged", v.get("acyclic") == acyclic)
+        check("flag-unchanged", (v.get("use_graph_primitive") is None) if arg is None else (v.get("use_graph_primitive") == arg))
+
+
 @harness("C20", cases=[dict(fn=f, arg=a) for f in ("active_vertices_connected", "active_edges_single_cycle",
                                                    "active_edges_single_path", "division_connected_variable_groups_with_borders",
                                                    "not_segmenting") for a in ("none", "given") if not (f == "not_segmenting" and a == "given")])
